@@ -79,6 +79,8 @@ class Module:
         with open(path, encoding="utf-8") as fh:
             self.source = fh.read()
         self.tree = ast.parse(self.source, filename=path)
+        from .normal import normalise
+        self.normal_stats = normalise(self.tree)      # rules see the normal form (sa/normal.py), never the raw spelling
         self.classes: dict[str, ClassInfo] = {}
         self.functions: dict[str, FuncInfo] = {}
         self.assigns: dict[str, ast.AST] = {}  # last top-level assignment value
